@@ -201,6 +201,8 @@ func concPay(sym rune, id int, k int) string { //nolint
 		return ">"
 	case 'A':
 		return ` a="b"`
+	case 'Q':
+		return `<?target some data?>`
 	}
 
 	return string(sym)
